@@ -66,14 +66,16 @@ def prepare_dir(base, tag, case, pre_files):
     return d
 
 
-def sysrun(exe, case, d, plan, timeout=120):
+def sysrun(exe, case, d, plan, timeout=300, cpu=40, fsize=256 << 20):
     """run one export case in directory d under an interposition plan; -> (rc, result-log or None, syscall log entries, stderr)"""
     cf = os.path.join(d, '_case.jsonl')
     with open(cf, 'w') as f:
         f.write(json.dumps(case) + '\n')
     plan = dict(plan, watch=d + '/' + case['id'] + '_')
     env = {'VDRV_SYS': json.dumps(plan), 'VDRV_SYSLOG': os.path.join(d, '_sys.log')}
-    rc, out, err, to = runner.run_tool(exe, ['export', cf, d, os.path.join(d, '_res.jsonl')], env=env, timeout=timeout)
+    # CPU-time and file-size limits: a library that loops (or writes for ever) under a fault dies with SIGXCPU / SIGXFSZ and is
+    # reported by the caller, instead of filling the disk until a wall-clock watchdog fires
+    rc, out, err, to = runner.run_limited(exe, ['export', cf, d, os.path.join(d, '_res.jsonl')], env=env, timeout=timeout, cpu=cpu, fsize=fsize)
     res = None
     rp = os.path.join(d, '_res.jsonl')
     if os.path.exists(rp):
